@@ -105,6 +105,8 @@ type Gen struct {
 	sinces   [][2]string
 	argOfWanted map[string]bool
 	sumlenWanted map[string]bool
+	// at_call(sel, expr) snapshots: ghost name -> (selector, expression)
+	snaps map[string]snapSpec
 	exportWanted map[string]bool
 	inlineStack []*ssa.Function
 	inlinePrefix string // unique per inlined call instance (value names must not collide with the caller's)
@@ -123,6 +125,7 @@ type Gen struct {
 
 type loopInfo struct {
 	idx     int
+	iterT   string // the header value of niter (completed iterations)
 	header  *ssa.BasicBlock
 	blocks  map[*ssa.BasicBlock]bool
 	backPreds []*ssa.BasicBlock
@@ -669,4 +672,51 @@ func (g *Gen) noteLemmaUse(e *SExpr) {
 	}
 	g.noteLemmaUse(e.X)
 	g.noteLemmaUse(e.Y)
+}
+
+type snapSpec struct {
+	sel string
+	e   *SExpr
+}
+
+func snapName(sel string, e *SExpr) string {
+	return "$snap:" + sel + "|" + e.String()
+}
+
+// takeSnapshots: right before a call matching sel, at_call(sel, E) records the value
+// E has in that (pre-call) state.
+func (g *Gen) takeSnapshots(c *ssa.CallCommon, prefix string) {
+	if len(g.snaps) == 0 {
+		return
+	}
+	for _, name := range callNames(c) {
+		name = prefix + name
+		for _, gn := range sortedKeys(g.snaps) {
+			sp := g.snaps[gn]
+			if sp.sel != name {
+				continue
+			}
+			sc := g.specCtx(g.env, g.cur, g.init)
+			v, err := sc.eval(sp.e)
+			if err != nil {
+				g.fail("at_call(%s, %s): %v", sp.sel, sp.e, err)
+				continue
+			}
+			if v.StructLoc {
+				// a struct-typed location: the snapshot is of its contents
+				st, _ := derefStruct(v.Ty)
+				v = &Val{T: g.loadStruct(g.cur, v.T, st), Ty: st}
+			}
+			if v.T == "" || v.Ty == nil {
+				g.fail("at_call(%s, %s): the expression has no scalar value", sp.sel, sp.e)
+				continue
+			}
+			g.ghostSorts[gn] = g.st.sortOf(v.Ty)
+			if g.ghostTypes == nil {
+				g.ghostTypes = map[string]types.Type{}
+			}
+			g.ghostTypes[gn] = v.Ty
+			g.cur.ghost[gn] = v.T
+		}
+	}
 }
